@@ -310,9 +310,34 @@ func (r *Run) mutEvents(path *Path) []mutEvent {
 		if !ok {
 			continue
 		}
-		if _, ok := r.mutInfo(f); ok {
+		if dmi, ok := r.mutInfo(f); ok {
 			if _, inTable := mutatorTable[funcName(f)]; !inTable && i+1 < len(path.Events) && path.Events[i+1].Kind == EvEnter && path.Events[i+1].Helper {
-				continue // derived row, but the function was looked into: the primitives it calls follow on the path
+				// derived row, but the function was looked into: when a table primitive is called inside,
+				// that call is the change; otherwise (the glue writes the state itself) this call is
+				prim := false
+				depth := 0
+				for k := i + 1; k < len(path.Events); k++ {
+					pe := path.Events[k]
+					if pe.Kind == EvEnter {
+						depth++
+					}
+					if pe.Kind == EvExit {
+						depth--
+						if depth == 0 {
+							break
+						}
+					}
+					if pe.Kind == EvCall {
+						if g, ok := pe.Callee.(*types.Func); ok {
+							if row, inT := mutatorTable[funcName(g)]; inT && row.Relay == dmi.Relay && row.Cascade == dmi.Cascade {
+								prim = true
+							}
+						}
+					}
+				}
+				if prim {
+					continue
+				}
 			}
 			out = append(out, mutEvent{Idx: i, Names: []string{funcName(f)}, Direct: true, Callee: f})
 			continue
